@@ -199,7 +199,8 @@ theorem onPacket_sound (G : Progs) (hG : GuardedProgs G) (S : Scheme) (strict : 
   · exact absurd hr (unsigned_never_yields_peer (envOf hd) _ hG.unsigned data k p wd)
   · exact absurd hr (unsigned_never_yields_peer (envOf hd) _ hG.unsignedWd data k p wd)
 
-/-- replay into another overlay / prefix mismatch: nothing runs -/
+/-- replay into another overlay / prefix mismatch: nothing runs — for every environment, i.e. whatever the receiver
+    already believes about the source address (`Env.netAddr`: some verified peer may sit there) or about the key -/
 theorem cross_overlay_replay_dropped (G : Progs) (o : Overlay) (envOf : Handler → Env P) (data : Bytes)
     (hpfx : data.take 22 ≠ o.pfx) : onPacket G o envOf 22 22 data = .droppedPrefix := by
   simp [onPacket, hpfx]
